@@ -117,6 +117,15 @@ def contract(module, qualname, props=(), name=None):
     return c
 
 
+_EXPR_CACHE = {}
+
+
+def _parse_expr(expr):
+    if expr not in _EXPR_CACHE:
+        _EXPR_CACHE[expr] = ast.parse(expr, mode="eval").body
+    return _EXPR_CACHE[expr]
+
+
 # ------------------------------------------------------------------------------------ spec evaluation
 class SpecInterp:
     """Evaluate a python expression string to a formula (python bool or z3 Bool) without forking."""
@@ -134,7 +143,7 @@ class SpecInterp:
         if callable(expr):
             r = expr(S)
             return self._to_formula(r)
-        tree = ast.parse(expr, mode="eval").body
+        tree = _parse_expr(expr)
         env = Env(None, dict(S.vars))
         env.vars.update(self.helpers(S))
         env.vars["result"] = S.result
@@ -154,7 +163,7 @@ class SpecInterp:
     def _value(self, expr, S, extra=None):
         if callable(expr):
             return expr(S)
-        tree = ast.parse(expr, mode="eval").body
+        tree = _parse_expr(expr)
         env = Env(None, dict(S.vars))
         env.vars.update(self.helpers(S))
         if extra:
